@@ -95,7 +95,11 @@ pub fn exhaustive(prop: &str, thorough: bool) -> Vec<Scenario> {
 
 fn exhaustive_general(prop: &str, thorough: bool) -> Vec<Scenario> {
 	let g = G;
-	let alpha = alphabet(g);
+	let mut alpha = alphabet(g);
+	if prop == "C04" {
+		alpha.push(Op::Continue);
+		alpha.push(Op::RestartSig { sig: 9, grace_ms: g });
+	}
 	let len = if thorough { 4 } else { 3 };
 	let seqs = sequences(&alpha, len);
 	let behs = behaviours(g);
@@ -290,6 +294,9 @@ pub fn random(prop: &str, rng: &mut Rng, thorough: bool) -> Scenario {
 	if prop == "C10" {
 		alpha.extend([Op::Run, Op::Run, Op::MarkerPrio(1), Op::MarkerPrio(2), Op::MarkerPrio(0), Op::ToWait]);
 	}
+	if prop == "C04" {
+		alpha.extend([Op::Continue, Op::Continue]);
+	}
 	let len = 5 + rng.usize(if thorough { 12 } else { 8 });
 	let mut steps = vec![];
 	let mut burst = vec![];
@@ -303,6 +310,16 @@ pub fn random(prop: &str, rng: &mut Rng, thorough: bool) -> Scenario {
 			} else {
 				deleted = true;
 			}
+		}
+		// graceful controls with any signal, the forceful one included
+		if rng.chance(1, 3) {
+			let other = *rng.pick(&[9, 9, 2, 1, 0, 10]);
+			op = match op {
+				Op::StopSig { grace_ms, .. } => Op::StopSig { sig: other, grace_ms },
+				Op::RestartSig { grace_ms, .. } => Op::RestartSig { sig: other, grace_ms },
+				Op::TryRestartSig { grace_ms, .. } => Op::TryRestartSig { sig: other, grace_ms },
+				o => o,
+			};
 		}
 		burst.push(op);
 		match rng.below(6) {
